@@ -1,9 +1,9 @@
 import Lean
-import Bermuda.Properties.C10
+import Bermuda.Properties.C05
 open Lean Elab Command
 run_cmd do
   let env ← getEnv
-  let some idx := env.getModuleIdx? `Bermuda.Properties.C10 | throwError "module not found"
+  let some idx := env.getModuleIdx? `Bermuda.Properties.C05 | throwError "module not found"
   for n in env.header.moduleData[idx.toNat]!.constNames do
     if let some (.thmInfo _) := env.find? n then
       if n.isInternalDetail then continue
